@@ -10,6 +10,17 @@ let acorn = null;
 try { acorn = require('internal/deps/acorn/acorn/dist/acorn'); } catch (e) { acorn = null; }
 
 function q(s) { return JSON.stringify(s); }
+// string values are compared by meaning: printable ASCII as is (except " and \), every other UTF-16 code unit as \uXXXX
+// (the same rendering as jsstr.Show in the Go harness)
+function showUnits(s) {
+  let out = '';
+  for (let i = 0; i < s.length; i++) {
+    const c = s.charCodeAt(i);
+    if (c >= 0x20 && c < 0x7f && c !== 0x22 && c !== 0x5c) out += s[i];
+    else out += '\\u' + c.toString(16).padStart(4, '0');
+  }
+  return '"' + out + '"';
+}
 
 function S(n) {
   if (n === null || n === undefined) return '_';
@@ -33,7 +44,7 @@ function S(n) {
     case 'Literal':
       if (n.value === null && n.raw === 'null') return '(null)';
       if (typeof n.value === 'number') return '(num ' + n.raw + ')';
-      if (typeof n.value === 'string') return '(str ' + q(n.raw.slice(1, -1)) + ')';
+      if (typeof n.value === 'string') return '(str ' + showUnits(n.value) + ')';
       if (typeof n.value === 'boolean') return '(' + n.raw + ')';
       return '(unsupported Literal)';
     case 'TemplateLiteral':
